@@ -30,6 +30,24 @@ func runC07(cases string, res *Result) {
 	reg("cond", "{% if true %}{% for i in [1] %}{{ v|e }}{% endfor %}{% endif %}")
 	reg("chainarg", "{{ v|default(dflt|trim|lower)|e }}")
 	reg("chainarg2", "{{ v|replace('@@NOPE@@', dflt|trim|upper|lower)|escape }}")
+	// escape applied to escaped text: the second application sees the first one's output
+	reg("twice_e", "{{ v|e|e }}")
+	reg("twice_escape", "{{ v|escape|escape }}")
+	reg("twice_mixed", "{{ v|raw|e|escape }}")
+	reg("twice_set", "{% set w = v|e|e %}{{ w }}")
+	reg("twice_macro", "{% macro m(x) %}{{ x|escape|escape }}{% endmacro %}{{ m(v) }}")
+	twice := []string{"twice_e", "twice_escape", "twice_mixed", "twice_set", "twice_macro"}
+	// another engine in the same process whose own filters carry the names e and escape: what it
+	// resolves must never answer for this engine
+	other := twig.New()
+	other.AddFilter("e", func(v interface{}, _ ...interface{}) (interface{}, error) { return v, nil })
+	other.AddFilter("escape", func(v interface{}, _ ...interface{}) (interface{}, error) { return v, nil })
+	if err := other.RegisterString("o_e", "{{ v|e }}"); err != nil {
+		panic(err)
+	}
+	if err := other.RegisterString("o_escape", "{% macro m(x) %}{{ x|escape }}{% endmacro %}{{ m(v) }}{{ v|escape }}"); err != nil {
+		panic(err)
+	}
 	all := []string{"p_e", "p_escape", "chain", "apply", "macro", "include", "cond", "chainarg", "chainarg2"}
 	few := []string{"p_e", "p_escape"}
 
@@ -90,12 +108,40 @@ func runC07(cases string, res *Result) {
 			ctx["v"] = c07Value(vk, in)
 			pos = []string{"p_e", "p_escape", "chain", "macro", "include", "cond"}
 		}
-		for _, p := range pos {
+		for i, p := range pos {
 			if (p == "chainarg") && in == "" {
 				continue // default() replaces the empty string: outside what this position is for
 			}
+			if stream != "exhaustive2" {
+				// the other engine renders in between, its last filter being its own e / escape
+				o := "o_e"
+				if i%2 == 1 {
+					o = "o_escape"
+				}
+				res.Hist["interleaved:other-engine"]++
+				if _, oerr := other.Render(o, ctx); oerr != nil {
+					res.add(Finding{Kind: "oracle", Where: "other engine " + o, Case: c, Detail: "error: " + oerr.Error()})
+				}
+			}
 			got, err := eng.Render(p, ctx)
 			check(p, exp, got, err)
+		}
+		if exp2 := c.hexs("exp2"); c.str("vkind") == "" && stream != "exhaustive2" {
+			for _, p := range twice {
+				res.Hist["position:"+p]++
+				res.Evaluations++
+				got, err := eng.Render(p, ctx)
+				switch {
+				case err != nil:
+					res.add(Finding{Kind: "oracle", Where: p, Case: c, Detail: "error: " + err.Error()})
+				case strings.ContainsAny(got, "<>\"'"):
+					res.add(Finding{Kind: "oracle", Where: p, Case: c, Expected: hx(exp2), Observed: hx(got), Detail: "raw special character in output"})
+				case refDecode(got) != exp || refDecode(refDecode(got)) != in:
+					res.add(Finding{Kind: "oracle", Where: p, Case: c, Expected: hx(exp2), Observed: hx(got), Detail: "decoding the output of escape applied twice once does not give back the escaped text (twice: the input)"})
+				case got != exp2:
+					res.add(Finding{Kind: "disagreement", Where: p, Case: c, Expected: hx(exp2), Observed: hx(got)})
+				}
+			}
 		}
 		// the text of a macro body built with the exported node constructors: {{ value|e }} in every spacing
 		if c.str("vkind") == "" && stream != "exhaustive2" {
